@@ -443,6 +443,35 @@ theorem interp_const (xp fp : List ℝ) (c x : ℝ) (hne : xp.zip fp ≠ []) (h 
     · exact h0
     · exact interpGo_const c x (x0, f0) rest h0 (fun q hq => hz q (by simp [hq]))
 
+/-- **a dual-stage amplifier saturates at its BOOSTER stage's p_max** (and offers the sum of both flat gains) -/
+theorem dual_stage_limits (pre boost : StageLimits ℝ) (gmin : ℝ) (d : DualLimits ℝ)
+    (h : updateDualStage pre boost gmin = some d) :
+    d.pMax = boost.pMax ∧ d.gainFlatmax = boost.gainFlatmax + pre.gainFlatmax ∧ d.gainMin = gmin ∧
+      pre.gainMin ≤ gmin := by
+  simp only [updateDualStage] at h
+  split at h
+  · rename_i hok
+    simp only [Option.some.injEq] at h
+    subst h
+    simp only [dualStageOk, Bool.not_eq_true', decide_eq_false_iff_not, not_lt] at hok
+    exact ⟨rfl, rfl, rfl, hok⟩
+  · cases h
+
+/-- hence the amplified incoming power of a dual-stage amplifier never exceeds the booster stage's p_max, whatever
+the preamp stage's p_max is, and the set gain is cut back exactly to it under saturation -/
+theorem dual_stage_total_out_le_booster_pmax (pre boost : StageLimits ℝ) (gmin s : ℝ) (d : DualLimits ℝ)
+    (ps : List ℝ) (h : updateDualStage pre boost gmin = some d) (hne : ps ≠ []) (hpos : ∀ p ∈ ps, 0 < p) :
+    watt2dbm (sumL (ps.map (fun p => p * db2lin (effGain s d.pMax (watt2dbm (sumL ps)))))) ≤ boost.pMax ∧
+    (boost.pMax < watt2dbm (sumL ps) + s → watt2dbm (sumL ps) + effGain s d.pMax (watt2dbm (sumL ps)) = boost.pMax) := by
+  obtain ⟨hp, _⟩ := dual_stage_limits pre boost gmin d h
+  rw [hp]
+  exact ⟨total_out_le_pmax ps s boost.pMax hne hpos, effGain_reduced_exact s boost.pMax _⟩
+
+/-- rejected exactly when the entry's minimum gain is below its preamp's -/
+theorem dual_stage_rejected_iff (pre boost : StageLimits ℝ) (gmin : ℝ) :
+    updateDualStage pre boost gmin = none ↔ gmin < pre.gainMin := by
+  simp [updateDualStage, dualStageOk]
+
 /-! ### persistence of the clamp, dual forms, multiband node -/
 
 /-- an amplifier that is never saturated keeps its set gain over any number of calls -/
@@ -520,6 +549,8 @@ theorem multiCall_per_band (amps : List (Amp ℝ × Oper ℝ)) (cs : List (Chan 
     exact ⟨ao, hao, hc, h4, h5⟩
 
 /-! ### non-vacuity -/
+example : updateDualStage (⟨23, 26, 15⟩ : StageLimits ℝ) ⟨25, 16, 8⟩ 25 = some ⟨25, 16 + 26, 25⟩ := by
+  simp [updateDualStage, dualStageOk]; norm_num
 example : effGain (20:ℝ) 23 10 = 13 := by rw [effGain, smin_eq_min]; norm_num
 example : effGain (20:ℝ) 23 (-10) = 20 := by rw [effGain, smin_eq_min]; norm_num
 example : callSeq (20:ℝ) 23 [10, -10] = 13 := by simp only [callSeq, effGain, smin_eq_min]; norm_num
